@@ -33,6 +33,27 @@ def scope(ctx):
     P = ctx.P
     roots = [e for e in ENTRY if ctx.anchor(e in ctx.F.bodies, e)]
     reach = P.reachable_from(roots)
+    # Ordered / hashed collections call back into the key type: BTreeMap<Term, _>::insert runs Ord::cmp of the term type
+    # (and its helpers) on attacker-chosen keys while decoding. The call graph has no edge for that (std is external), so
+    # the comparison / hashing entry points of the key type are added as roots wherever such a collection is filled.
+    implied = set()
+    for p in sorted(reach):
+        if ctx.F.bodies[p]['crate'] != 'erltf':
+            continue
+        for bb, t in P.B(p).calls():
+            g = callee_of(t)[0] or ''
+            aty = (t.get('aty') or [''])[0]
+            if not any(m in g for m in ('BTreeMap', 'BTreeSet', 'HashMap', 'HashSet')) or g.rsplit('::', 1)[-1] not in ('insert', 'entry', 'get', 'contains_key', 'remove', 'get_mut'):
+                continue
+            for term, cmps in (('erltf::term::OwnedTerm', ('<erltf::term::OwnedTerm as core::cmp::Ord>::cmp', '<erltf::term::OwnedTerm as core::hash::Hash>::hash')),
+                               ('erltf::borrowed::BorrowedTerm', ("<erltf::borrowed::BorrowedTerm<'a> as core::cmp::Ord>::cmp", "<erltf::borrowed::BorrowedTerm<'a> as core::hash::Hash>::hash"))):
+                if ('<' + term) in aty:
+                    hashed = 'Hash' in g
+                    implied.add(cmps[1] if hashed else cmps[0])
+    implied = {q for q in implied if q in ctx.F.bodies}
+    if implied:
+        reach |= P.reachable_from(sorted(implied))
+    ctx.implied_roots = sorted(implied)
     return roots, sorted(p for p in reach if ctx.F.bodies[p]['crate'] == 'erltf')
 
 
@@ -42,7 +63,7 @@ def run(ctx):
     ctx.rule('C02.0-scope', 'decode entry points found and the reachable function set inside erltf enumerated', floor=8)
     for r in roots:
         ctx.ok('C02.0-scope', r, 'entry point')
-    ctx.info_note('%d functions reachable from the %d decode entry points inside erltf' % (len(bodies), len(roots)))
+    ctx.info_note('%d functions reachable from the %d decode entry points inside erltf (including %s, run by the map collections while decoding)' % (len(bodies), len(roots), getattr(ctx, 'implied_roots', [])))
     ctx.anchor(len(bodies) >= 60, 'reachable decoder functions (>= 60)')
 
     ctx.rule('C02.1-no-panic', 'no panic-capable site (indexing, slicing, arithmetic overflow, division, unwrap/expect, explicit panic, partial std API) reachable from a decode entry point is undischarged', floor=15)
